@@ -21,8 +21,9 @@ def run(rng, out, n):
         pdir = rng.choice([bdir, "io"])
         ff = rng.random() < 0.3
         wrapper = rng.choice([None, None, "reset", "enable", "rename"])
+        oe_mode = rng.choice(["port", "port", "const0", "const1"])
         cfg = {"kind": "real-port", "width": w, "invert": list(inv), "differential": diff, "buffer_dir": bdir,
-               "port_dir": pdir, "ffbuffer": ff, "buffer_under": wrapper}
+               "port_dir": pdir, "ffbuffer": ff, "buffer_under": wrapper, "output_enable": oe_mode}
         M = mask_of(inv)
         full = (1 << w) - 1
         try:
@@ -46,9 +47,13 @@ def run(rng, out, n):
             o, oe, i = Signal(w, name="o"), Signal(name="oe"), Signal(w, name="i")
             ports = {"clk": (cd.clk, PortDirection.Input), "hold": (hold, PortDirection.Input)}
             if bdir in ("o", "io"):
-                m.d.comb += [buf.o.eq(o), buf.oe.eq(oe)]
+                m.d.comb += buf.o.eq(o)
                 ports["o"] = (o, PortDirection.Input)
-                ports["oe"] = (oe, PortDirection.Input)
+                if oe_mode == "port":
+                    m.d.comb += buf.oe.eq(oe)
+                    ports["oe"] = (oe, PortDirection.Input)
+                else:
+                    m.d.comb += buf.oe.eq(1 if oe_mode == "const1" else 0)      # the enable tied off in the design
             if bdir in ("i", "io"):
                 m.d.comb += i.eq(buf.i)
                 ports["i"] = (i, PortDirection.Output)
@@ -120,9 +125,12 @@ def run(rng, out, n):
         try:
             for rep in range(6):
                 ov, oev, pad_ext = rng.getrandbits(w), rng.getrandbits(1), rng.getrandbits(w)
+                if oe_mode != "port":
+                    oev = 1 if oe_mode == "const1" else 0
                 if bdir in ("o", "io"):
                     ev.set("o", ov)
-                    ev.set("oe", oev)
+                    if oe_mode == "port":
+                        ev.set("oe", oev)
                 pname = iops[0].name
                 if bdir in ("i", "io"):
                     ev.set(pname, pad_ext)
